@@ -203,6 +203,19 @@ def cands_discrete(rng, m, k):
             out.append(("non-integral", np.asarray(f, np.float32)))
     out.append(("nan", np.asarray(np.nan, np.float32)))
     out.append(("nan", np.asarray(np.nan, np.float64)))
+    # half-precision candidates (two-byte floats, as narrow as int16)
+    import ml_dtypes
+
+    for hd in (np.float16, ml_dtypes.bfloat16):
+        out.append(("nan", np.asarray(np.nan, hd)))
+        out.append(("negative", np.asarray(-0.5, hd)))
+        out.append(("negative", np.asarray(-1.0, hd)))
+        if n > 1:
+            out.append(("non-integral", np.asarray(0.5, hd)))
+        if n > 3:
+            out.append(("non-integral", np.asarray(2.5, hd)))
+        if n <= 256:
+            out.append(("too-large", np.asarray(float(n), hd)))
     out.append(("ambiguous-bool", np.asarray(True)))
     out.append(("ambiguous-bool", np.asarray(False)))
     return out
@@ -394,6 +407,12 @@ def run_multibinary(ctx, m, space, k):
             judge_contains(ctx, m, space, x, "non-integral", rep)
         for rep, x in reps(w(np.nan, np.float32), py_ok=False):
             judge_contains(ctx, m, space, x, "nan", rep)
+        for rep, x in reps(w(np.nan, np.float16), py_ok=False):
+            judge_contains(ctx, m, space, x, "nan", rep + "-float16")
+        for rep, x in reps(w(0.5, np.float16), py_ok=False):
+            judge_contains(ctx, m, space, x, "non-integral", rep + "-float16")
+        for rep, x in reps(w(-0.5, np.float16), py_ok=False):
+            judge_contains(ctx, m, space, x, "negative", rep + "-float16")
         for rep, x in reps(w(np.inf, np.float32), py_ok=False):
             judge_contains(ctx, m, space, x, "too-large", rep + "-inf")
         for big in (2**32 + int(base.ravel()[i]), -2**63, 2**63 - 1):
@@ -454,6 +473,12 @@ def run_multidiscrete(ctx, m, space, k):
             judge_contains(ctx, m, space, x, "non-integral", rep)
         for rep, x in reps(w(np.nan, np.float32), py_ok=False):
             judge_contains(ctx, m, space, x, "nan", rep)
+        for rep, x in reps(w(np.nan, np.float16), py_ok=False):
+            judge_contains(ctx, m, space, x, "nan", rep + "-float16")
+        for rep, x in reps(w(0.5, np.float16), py_ok=False):
+            judge_contains(ctx, m, space, x, "non-integral", rep + "-float16")
+        for rep, x in reps(w(-0.5, np.float16), py_ok=False):
+            judge_contains(ctx, m, space, x, "negative", rep + "-float16")
         for big in (2**32 + int(base[i]), -2**63, -2**63 + 1, 2**63 - 1):
             judge_contains(ctx, m, space, w(big), "int64-overflow", "np")
         # unsigned values above the int32 range: reinterpreted as int32 they would be small negative / member indices
